@@ -699,9 +699,10 @@ class RotateLeftConstant(Logic):
 
     def propagate(self):
         a = self.a.get()
-        n = self.n
         w = self.a.getWidth()
-        self.r.put((a << n) | (a >> (w - n)))
+        n = self.n % w
+        mask = (1 << w) - 1
+        self.r.put(((a << n) | (a >> (w - n))) & mask)
 
 
 class RotateRightConstant(Logic):
@@ -729,9 +730,10 @@ class RotateRightConstant(Logic):
 
     def propagate(self):
         a = self.a.get()
-        n = self.n
         w = self.a.getWidth()
-        self.r.put((a >> n) | (a << (w - n)))
+        n = self.n % w
+        mask = (1 << w) - 1
+        self.r.put(((a >> n) | (a << (w - n))) & mask)
                 
 class Xor2(Logic):
     def __init__(self, parent, name: str, a: Wire, b: Wire, r: Wire):
